@@ -242,6 +242,12 @@ def rule_loadall(ctx: Ctx) -> RuleResult:
         a0 = n.args[0] if n.args else None
         if isinstance(a0, ast.Name) and a0.id in g.params:
             good = True  # a parameter: PathConfig(name, module name) / helper(module name)
+        elif a0 is not None:
+            fl = flow_of(g.node)
+            at = fl.node_of(n)
+            deps = fl.depends(a0, at.id if at else None)
+            if any(a.kind == "param" and a.text not in ("self", "cls") for a in deps) and not any(a.kind == "const" for a in deps if a.text.startswith("'spil")):
+                good = True  # derived from the parameters only
     if good:
         res.ok("PathConfig module", "imported by the configured module name")
     else:
